@@ -620,6 +620,7 @@ struct Obs {
   std::map<int, uint64_t> page_hash;                       // key pgno<<16|subno (the FULL subpage number) -> hash of level 1 + 2.5 rendering
   std::map<int, std::vector<uint16_t>> row0;               // level-1 unicode of row 0
   std::map<int, std::vector<uint64_t>> row_hash;           // per row hash (both levels)
+  std::map<int, uint64_t> nav_hash;                        // FLOF links + navigation row with navigation enabled
   bool operator==(const Obs& o) const { return events == o.events && page_hash == o.page_hash; }
 };
 
@@ -660,7 +661,8 @@ struct C03 : World, TtxWorldBase {
         // kind: 0 single bit, 1 two bits in one byte, 2 two bits in different bytes, 3 burst, 4 drop packet,
         //       5 two bits in one of the page number / subcode / control bytes of a header,
         //       6 one bit in a text row character at a position addressed by an X/26 column triplet
-        f.a = {(int64_t)r.below(7), (int64_t)r.below(1000), (int64_t)r.below(336), (int64_t)r.below(336), 2 + (int64_t)r.below(15)};
+        //       7 two bits in the designation code of an X/26-29 packet or the link control byte of an X/27 packet
+        f.a = {(int64_t)r.below(8), (int64_t)r.below(1000), (int64_t)r.below(336), (int64_t)r.below(336), 2 + (int64_t)r.below(15)};
         p.ops.push_back(f);
       }
     }
@@ -881,6 +883,19 @@ struct C03 : World, TtxWorldBase {
             h.u64(rh.h); rows.push_back(rh.h);
           }
         }
+        // the FLOF links as the navigation shows them (they are part of "the decoder state and fetched pages")
+        { vbi_bool ok;
+          budget_begin("vbi_fetch_vt_page", 30000000);
+          memset(&pg, 0, sizeof pg);   // vbi_fetch_vt_page leaves nav_link[] entries it has no link for untouched
+          { SutScope ss; ok = vbi_fetch_vt_page(dec, &pg, pgno, s, VBI_WST_LEVEL_1, 25, TRUE); }
+          budget_end();
+          if (ok && (pg.subno == s || s == 0)) {
+            Fnv nh;
+            for (int i = 0; i < 6; i++) { if (i == 4) continue; nh.u64((uint64_t)pg.nav_link[i].pgno); nh.u64((uint64_t)pg.nav_link[i].subno); }
+            for (int col = 0; col < 40; col++) nh.u64((uint64_t)pg.text[24 * 41 + col].unicode | ((uint64_t)pg.text[24 * 41 + col].foreground << 16));
+            o.nav_hash[pkey(pgno, s)] = nh.h;
+            if (ctx->verbose) { fprintf(stderr, "    nav %x.%x:", pgno, s); for (int i = 0; i < 6; i++) fprintf(stderr, " %x.%x", pg.nav_link[i].pgno, pg.nav_link[i].subno); fprintf(stderr, " |"); for (int col = 0; col < 40; col++) fprintf(stderr, "%c", pg.text[24 * 41 + col].unicode < 127 && pg.text[24 * 41 + col].unicode >= 32 ? (char)pg.text[24 * 41 + col].unicode : '?'); fprintf(stderr, "|\n"); }
+          } }
         o.page_hash[pkey(pgno, s)] = h.h;
         o.row_hash[pkey(pgno, s)] = rows;
       }
@@ -889,11 +904,14 @@ struct C03 : World, TtxWorldBase {
     return o;
   }
 
-  std::string diff(const Obs& a, const Obs& b) {
+  // with_nav: also the FLOF links and the navigation row (not for the parity-row rule: a rejected row 24 may or may not
+  // make room for the generated navigation bar, the statement only says the row keeps its content or stays blank)
+  std::string diff(const Obs& a, const Obs& b, bool with_nav = true) {
     char t[256];
     if (a.events != b.events) { snprintf(t, sizeof t, "page events differ (%zu vs %zu)", a.events.size(), b.events.size()); return t; }
     for (auto& kv : a.page_hash) { auto it = b.page_hash.find(kv.first); if (it == b.page_hash.end()) { snprintf(t, sizeof t, "page %x.%x cached only with the fault", kv.first >> 16, kv.first & 0xFFFF); return t; } if (it->second != kv.second) { snprintf(t, sizeof t, "page %x.%x renders differently", kv.first >> 16, kv.first & 0xFFFF); return t; } }
     for (auto& kv : b.page_hash) if (!a.page_hash.count(kv.first)) { snprintf(t, sizeof t, "page %x.%x missing with the fault", kv.first >> 16, kv.first & 0xFFFF); return t; }
+    if (with_nav) for (auto& kv : a.nav_hash) { auto it = b.nav_hash.find(kv.first); if (it == b.nav_hash.end() || it->second != kv.second) { snprintf(t, sizeof t, "page %x.%x has other FLOF links / navigation row", kv.first >> 16, kv.first & 0xFFFF); return t; } }
     return "";
   }
 
@@ -927,7 +945,7 @@ struct C03 : World, TtxWorldBase {
       bool prot = tag == ttx::H84 || tag == ttx::H2418_0 || tag == ttx::H2418_1 || tag == ttx::H2418_2;
       if (prot && kv.second == 1) continue;
       all_single_protected = false;
-      bool addr = kv.first < 2 || (pk.y == 0 && kv.first < 10) || (pk.y >= 26 && pk.y <= 29 && kv.first == 2);
+      bool addr = kv.first < 2 || (pk.y == 0 && kv.first < 10) || (pk.y >= 26 && pk.y <= 29 && kv.first == 2) || (pk.y == 27 && kv.first == 39 /* link control byte */);
       if (prot && kv.second == 2 && addr) { any_double_addr = true; if (kv.first < 2 || pk.y != 0) addr_byte_hit_double = true; }
       else if (tag == ttx::PAR && kv.second % 2 == 1) par_hit = true;
       else other = true;
@@ -971,7 +989,7 @@ struct C03 : World, TtxWorldBase {
         }
         c.count("fault_parity_row");
         if (!without.count(k)) without[k] = decode(L, k, {});
-        std::string d = diff(o, without[k]);
+        std::string d = diff(o, without[k], false);
         if (!d.empty()) { c.fail("oracle:c03-parity-row", "%s: a row received with a parity error is not ignored as a whole (must keep earlier content or stay blank): %s", what, d.c_str()); return false; }
         return true;
       }
@@ -1032,11 +1050,23 @@ struct C03 : World, TtxWorldBase {
                 c.count("enumerated_double_bit_address_control");
                 check_fault(L, twin, without, (int)k, {byte * 8 + b1, byte * 8 + b2}, false, c);
               }
+        // ... and in the designation code of every X/26-29 packet and the link control byte of X/27 (control bytes too)
+        for (size_t k = 0; k < L.size() && !c.failed; k++) {
+          if (L[k].pk.y < 26 || L[k].pk.y > 29) continue;
+          for (int byte : {2, 39}) {
+            if (byte == 39 && L[k].pk.y != 27) continue;
+            for (int b1 = 0; b1 < 8 && !c.failed; b1++)
+              for (int b2 = b1 + 1; b2 < 8 && !c.failed; b2++) {
+                c.count("enumerated_double_bit_designation_linkcontrol");
+                check_fault(L, twin, without, (int)k, {byte * 8 + b1, byte * 8 + b2}, false, c);
+              }
+          }
+        }
         c.count("enumerated_transmissions");
       }
       for (const Op* f : faults) {
         if (c.failed) break;
-        int kind = (int)(llabs(f->arg(0)) % 7);
+        int kind = (int)(llabs(f->arg(0)) % 8);
         int k = (int)(llabs(f->arg(1)) % (int64_t)L.size());
         int b1 = (int)(llabs(f->arg(2)) % 336), b2 = (int)(llabs(f->arg(3)) % 336);
         std::vector<int> bits;
@@ -1049,6 +1079,13 @@ struct C03 : World, TtxWorldBase {
           // directed: a parity error exactly where an X/26 column triplet points
           if (x26_addressed.empty()) kind = 0;
           else { auto& a = x26_addressed[(size_t)(llabs(f->arg(1)) % (int64_t)x26_addressed.size())]; k = a.first; b1 = a.second * 8 + b1 % 8; c.count("fault_one_bit_at_x26_addressed_position"); kind = 0; }
+        }
+        if (kind == 7) {
+          // directed: an uncorrectable designation code of an X/26-29 packet or link control byte of an X/27 packet
+          std::vector<std::pair<int, int>> ctl;
+          for (size_t i = 0; i < L.size(); i++) if (L[i].pk.y >= 26 && L[i].pk.y <= 29) { ctl.push_back({(int)i, 2}); if (L[i].pk.y == 27) { ctl.push_back({(int)i, 39}); ctl.push_back({(int)i, 39}); } }
+          if (ctl.empty()) kind = 1;
+          else { auto& a = ctl[(size_t)(llabs(f->arg(1)) % (int64_t)ctl.size())]; k = a.first; b1 = a.second * 8 + b1 % 8; c.count("fault_double_bit_designation_linkcontrol"); kind = 1; }
         }
         switch (kind) {
           case 0: bits = {b1}; break;
